@@ -195,6 +195,7 @@ class Machine:
             p = parse_program(txt)
             self.functions.update(p.functions)
             self.consts.update(p.consts)
+        self._fix_closure_aggregates()
         self.defs = {}          # (type, trait, method) -> [(fn, trait_args, generics)]
         self.free = {}          # name -> fn
         self.closures = {}      # closure type text -> fn
@@ -206,6 +207,54 @@ class Machine:
         self.models.update(models_std.MODELS)
         self.models.update(models_env.MODELS)
         self.overrides = {}     # harness-installed overrides: key -> pyfunc (checked first)
+
+    def _fix_closure_aggregates(self):
+        """rustc's MIR pretty-printer zips a closure aggregate's operands with the *variable names* it
+        captures; with edition-2021 disjoint field captures (`self.a`, `self.b` -> one name `self`) the
+        trailing operands are not printed.  They are always temporaries assigned in the same block and
+        used nowhere else, so they are recovered here; anything else is a parse error (inconclusive)."""
+        need = {}
+        for name, fn in self.functions.items():
+            if re.search(r'\{closure#\d+\}$', name):
+                t = fn.locals.get(1, '')
+                m = re.search(r'\{closure@[^}]*\}', t)
+                if not m:
+                    continue
+                mx = -1
+                for b in fn.blocks.values():
+                    for txt in [st.text for st in b.stmts] + [b.term.text]:
+                        for mm in re.finditer(r'\(\(?\*?_1\)?\.(\d+): ', txt):
+                            mx = max(mx, int(mm.group(1)))
+                need[m.group(0)] = mx + 1
+        for name, fn in self.functions.items():
+            alltext = None
+            for bid, b in fn.blocks.items():
+                for si, st in enumerate(b.stmts):
+                    if st.kind == 'assign' and st.rv.kind == 'aggregate' and st.rv.a == 'closure':
+                        n = need.get(st.rv.extra)
+                        if n is None or n <= len(st.rv.b):
+                            continue
+                        if alltext is None:
+                            alltext = []
+                            for bb in fn.blocks.values():
+                                alltext.extend(x.text for x in bb.stmts)
+                                alltext.append(bb.term.text)
+                        printed = {o.place.local for _, o in st.rv.b if o.place is not None}
+                        cands = []
+                        for prev in b.stmts[:si]:
+                            if prev.kind != 'assign' or prev.place.proj:
+                                continue
+                            k = prev.place.local
+                            if k in printed:
+                                continue
+                            uses = sum(len(re.findall(r'(?<![\w])_%d(?![\d])' % k, t)) for t in alltext)
+                            if uses == 1:
+                                cands.append(k)
+                        missing = n - len(st.rv.b)
+                        if len(cands) < missing:
+                            raise MirParseError("cannot recover unprinted closure captures in %s: %s" % (name, st.text))
+                        for k in cands[-missing:]:
+                            st.rv.b.append(('<recovered>', Operand('move', place=Place(k, ()))))
 
     def _index(self):
         for name, fn in self.functions.items():
